@@ -64,6 +64,10 @@ std::u32string nfc(std::u32string_view s);
 // Digits are case-insensitive; basic code points are copied verbatim.
 std::optional<std::string> punycode_encode(std::u32string_view s);
 std::optional<std::u32string> punycode_decode(std::string_view s);
+// Same procedures with an explicit punycode_uint range ("maxint", RFC 3492 section 6.4: any value
+// >= 2^26-1 is conformant).  The two functions above use maxint = 2^32-1.  maxint must be < 2^63.
+std::optional<std::string> punycode_encode_maxint(std::u32string_view s, uint64_t maxint);
+std::optional<std::u32string> punycode_decode_maxint(std::string_view s, uint64_t maxint);
 
 // UTS46 4.1 Validity Criteria 1,4,5,6,7,8 for one label (criteria 2,3 are
 // CheckHyphens; criterion 9 = Bidi is evaluated on the whole domain, below).
